@@ -262,3 +262,89 @@ def build_keywords_reach_exactly_the_subsets_that_accept_them():
     base_build = resolve(DET).build_antennas
     base_build(base, A2, "nm", gain=4)
     prove("base-detector-builds-one-antenna-per-position", built == [("nm", (0, 0, -10), 4), ("nm", (1, 0, -10), 4)])
+
+
+# ---------------------------------------------------------------------------
+# keyword routing in CombinedDetector.triggered
+# ---------------------------------------------------------------------------
+
+class CountSub:
+    """a sub-detector whose trigger accepts an antenna requirement but not the Monte-Carlo switch"""
+
+    def __init__(self, log, tag, result):
+        self.log, self.tag, self.result = log, tag, result
+
+    def triggered(self, antenna_requirement=1):
+        self.log.append((self.tag, {"antenna_requirement": antenna_requirement}))
+        return self.result
+
+
+class TruthSub:
+    """accepts the Monte-Carlo switch and a threshold, not the antenna requirement"""
+
+    def __init__(self, log, tag, result):
+        self.log, self.tag, self.result = log, tag, result
+
+    def triggered(self, require_mc_truth=False, threshold=0):
+        self.log.append((self.tag, {"require_mc_truth": require_mc_truth, "threshold": threshold}))
+        return self.result
+
+
+class AnySub:
+    def __init__(self, log, tag, result):
+        self.log, self.tag, self.result = log, tag, result
+
+    def triggered(self, **kwargs):
+        self.log.append((self.tag, dict(kwargs)))
+        return self.result
+
+
+def _routing(order):
+    log = []
+    results = {"c": boolean("count_sub_triggers"), "t": boolean("truth_sub_triggers"), "a": boolean("any_sub_triggers")}
+    mk = {"c": CountSub, "t": TruthSub, "a": AnySub}
+    subs = [mk[k](log, k, results[k]) for k in order]
+    det = obj(CMB, subsets=subs, _subset_triggers_match=False)
+    mc = boolean("require_mc_truth")
+    req = integer("antenna_requirement", 1, 4)
+    thr = real("threshold", 0, 5)
+    out = det.triggered(require_mc_truth=mc, antenna_requirement=req, threshold=thr)
+    want = {"c": {"antenna_requirement": req},
+            "t": {"require_mc_truth": mc, "threshold": thr},
+            "a": {"require_mc_truth": mc, "antenna_requirement": req, "threshold": thr}}
+    # sub-detectors are consulted in order until one triggers; each sees exactly the keywords it accepts
+    expect_calls = []
+    fired = False
+    for k in order:
+        if not fired:
+            expect_calls.append(k)
+            if results[k]:
+                fired = True
+    last = {}
+    for tag, kw in log:
+        last[tag] = kw          # the successful (last) call to each sub-detector
+    tag_order = []
+    for tag, kw in log:
+        if tag not in tag_order:
+            tag_order.append(tag)
+    prove("order:%s:sub-detectors-consulted-in-order-until-one-triggers" % order, tag_order == expect_calls)
+    for k in expect_calls:
+        prove("order:%s:%s-receives-exactly-the-keywords-it-accepts" % (order, k), last[k] == want[k])
+    prove("order:%s:result-is-the-union-of-the-sub-triggers" % order,
+          out == Or(*[results[k] for k in order]))
+    prove("positional-arguments-refused-for-differing-subsets:%s" % order, raises("TypeError", det.triggered, False, 1))
+
+
+@harness(clause="keyword-routing")
+def trigger_keywords_reach_exactly_the_subsets_that_accept_them_cta():
+    _routing("cta")
+
+
+@harness(clause="keyword-routing")
+def trigger_keywords_reach_exactly_the_subsets_that_accept_them_tca():
+    _routing("tca")
+
+
+@harness(clause="keyword-routing")
+def trigger_keywords_reach_exactly_the_subsets_that_accept_them_act():
+    _routing("act")
